@@ -289,6 +289,10 @@ SHAPES = [
     ('x-l[data-t="$#"]*', implicit(lambda l, i: el('x-l', [], [['data-t', '"%s"' % l]]))),
     ('x-l{$# - $#}*', implicit(lambda l, i: el('x-l', T(l + ' - ' + l)))),
     ('x-t>(x-r>x-d*)', implicit(lambda l, i: el('x-d', T(l)), lambda inner: el('x-t', el('x-r', inner)))),
+    # the element that takes the line has a text of its own that ENDS WITH A TABSTOP: the line is appended, nothing is replaced
+    ('x-l{Note: ${1}}*', implicit(lambda l, i: el('x-l', T('Note: ' + l)))),
+    ('x-u>x-l{a ${1:b}}*', implicit(lambda l, i: el('x-l', T('a b' + l)), lambda inner: el('x-u', inner))),
+    ('x-d>x-p{Total${0}}', plain(lambda t: el('x-d', el('x-p', T('Total' + t))))),
     ('x-u>x-l', plain(lambda t: el('x-u', el('x-l', T(t))))),
     ('x-d', plain(lambda t: el('x-d', T(t)))),
     ('x-u>x-l+x-m', plain(lambda t: el('x-u', el('x-l', []) + el('x-m', T(t))))),
